@@ -185,11 +185,9 @@ vf::Outcome run_case(const Case& c, const vf::Options&)
    const int stagger = c.aux.size() > 2 ? c.aux[2] % 5 : 0;
    const auto programs = assign(c, n, mode, stagger);
 
-   // each program alone, one after the other
-   std::vector<Result> alone;
-   for (auto& p : programs) alone.push_back(run_program(c.profile, p, false, [] {}));
-
-   // all of them at once
+   // all of them at once -- first, so that whatever the library initialises lazily is still cold when the threads meet it
+   // (the first case of a process is the only one that sees a cold library; shard 0 starts with a fixed script that
+   // runs every op on every thread)
    const long reports_before = g_reports.load();
    g_first_done.store(false);
    std::vector<Result> together(static_cast<std::size_t>(n));
@@ -207,6 +205,9 @@ vf::Outcome run_case(const Case& c, const vf::Options&)
       for (auto& th : threads) th.join();
    }
    const long races = g_reports.load() - reports_before;
+   // each program alone, one after the other: the reference traces
+   std::vector<Result> alone;
+   for (auto& p : programs) alone.push_back(run_program(c.profile, p, false, [] {}));
    if (races > 0) {
       const long k = std::min<long>(reports_before, max_kept - 1);
       const std::string where = frame_name(g_pcs[k][0]);
@@ -260,6 +261,35 @@ std::string sample(const Case& c)
    return r;
 }
 
+// The first case of shard 0: every op of the profile with a few operand variants, the same program on four threads, on
+// a library nothing has touched yet in this process.
+void exhaustive(const vf::Options& o, vf::Tally& tally)
+{
+   if (o.get("zoo", 1) == 0) return;
+   Case c;
+   c.profile = "lifetime";
+   c.aux = {2, 0, 0};   // 4 threads, same program everywhere
+   const Profile& p = profile("lifetime");
+   const auto& tab = op_table();
+   for (int round = 0; round < 2; ++round)
+      for (std::size_t k = 0; k < tab.size(); ++k) {
+         const int lo = k == 0 ? 0 : p.cumulative[k - 1];
+         if (lo >= p.cumulative[k] || std::strcmp(tab[k].name, "BULK") == 0 || std::strcmp(tab[k].name, "LONGSTR") == 0) continue;
+         const int variants = std::strcmp(tab[k].name, "FORM") == 0 || std::strcmp(tab[k].name, "BINARY") == 0 ? 24 : (std::strcmp(tab[k].name, "UNARY") == 0 ? 16 : 5);
+         for (int v = 0; v < variants; ++v) {
+            Op op;
+            op.code = std::uint16_t(lo);
+            op.a = std::uint8_t(v); op.b = std::uint8_t(v * 7 + round * 3); op.c = std::uint8_t(v * 3 + 1 + round);
+            op.d = std::uint8_t(v * 5 + 2 + round); op.e = std::uint8_t(v + round); op.f = std::uint8_t(v * 11 + round);
+            c.ops.push_back(op);
+         }
+      }
+   vf::put_current(to_text(c));
+   vf::Outcome out = run_case(c, o);
+   vf::account(o, tally, to_text(c), "cold start: every op of the lifetime profile x operand variants, the same program on 4 threads (" + std::to_string(c.ops.size()) + " ops)", out);
+   tally.notes["cold_start"] = "shard 0 begins with a fixed script that runs every op on 4 threads before anything else has used the library in the process";
+}
+
 }   // namespace
 
 int main(int argc, char** argv)
@@ -267,6 +297,7 @@ int main(int argc, char** argv)
    inline_printing().store(true);
    vf::Hooks<Case> hk;
    hk.generator = [](const vf::Options&) { return case_gen("lifetime", 3); };
+   hk.exhaustive = exhaustive;
    hk.run = run_case;
    hk.to_text = [](const Case& c) { return to_text(c); };
    hk.from_text = [](const std::string& s, Case& c) { return from_text(s, c); };
